@@ -51,6 +51,21 @@ CHECKS = {
         note="Trusted: TLC, the realisation of abstract field values, the field-wise abstraction of documents. Absent and empty are identified; bases are in the OpenAPI object model's normal form.",
         technique="TLA+ model of the base merge (TLC, all abstract bases x programs) + spec->impl replay through Builder and oal-cli with field-wise abstraction",
     ),
+    "C12": dict(
+        design_ref="DESIGN.md 3.3, 4 (C12)",
+        text="Peg.tla models the parsing engine of grammar.rs (memo table, read/hit counters, arena with detach-on-append, repeat, "
+             "intersperse) as a state-passing interpreter; OxlipGrammar.tla is parser.rs as data (every function, same order of "
+             "alternatives). TLC evaluates MemoTransparent, CacheSound, Lossless, Progress, Linear and TriviaInvisible on every token "
+             "sequence of seven families (fixed prefix + every tail up to 3-4 (quick) / 4-6 (thorough) tokens). Every member is "
+             "replayed through the real parser with and without cache: tree, end cursor, error and the four counters are predicted "
+             "exactly by the model (validating the transcription), and the property's own predicates - cached = uncached, reads <= "
+             "40 x (n+1) - are evaluated on the real runs. Real runs on the repository corpus, token-level mutants, nests to depth 200 "
+             "and sequences of thousands of tokens are judged by TLC in oracle mode (n <= 60) and against the linear bound (all n). "
+             "Bounded, not a proof.",
+        note="Trusted: TLC, the transcription of parser.rs (validated by exact agreement on every member), hook H1 counters. Disagreement of "
+             "the model with the code on counters/trees that the property does not state is reported as MODEL-DRIFT, not as a violation.",
+        technique="TLA+ interpreter of the memoizing PEG engine with the grammar as data (TLC, all token sequences of 7 families) + exact spec->impl replay (tree and counters) + impl->spec oracle validation",
+    ),
 }
 
 PENDING_REASON = "check not built yet (work in progress; see DESIGN.md section 8 for the build order)"
